@@ -290,6 +290,28 @@ fn vp_native_tls_verification_matrix_body() {
         assert_eq!(r.text().unwrap(), "tls-ok");
         assert!(s.get(format!("https://localhost:{}/to-ip", redirecting)).send().is_err(), "a redirect led to an https origin whose certificate does not match its name, and the exchange succeeded"); cases += 1;
     }
+    // the flags in effect are the last values set, whatever was set before: every sequence of up to 3 calls out of
+    // {certs(true), certs(false), names(true), names(false)} on a session, then up to 1 on a request of it; the server presents the
+    // valid certificate, the root is added, the host is 127.0.0.1 (name mismatch) or localhost - and once without the added root
+    {
+        let ops: [(bool, bool); 4] = [(true, true), (true, false), (false, true), (false, false)];   // (is the certificate flag?, value)
+        let mut seqs: Vec<Vec<usize>> = vec![vec![]];
+        for len in 1..=3usize { let mut idx = vec![0usize; len]; loop { seqs.push(idx.clone()); let mut k = 0; loop { if k == len { break; } idx[k] += 1; if idx[k] < 4 { break; } idx[k] = 0; k += 1; } if k == len { break; } } }
+        for seq in &seqs { for req_op in [None, Some(0usize), Some(1), Some(2), Some(3)] { for (host, with_root) in [("127.0.0.1", true), ("localhost", true), ("localhost", false)] {
+            if req_op.is_some() && seq.len() > 2 { continue; }
+            let mut sess = direct();
+            let (mut certs, mut names) = (false, false);
+            for &o in seq { let (is_c, v) = ops[o]; if is_c { sess.danger_accept_invalid_certs(v); certs = v; } else { sess.danger_accept_invalid_hostnames(v); names = v; } }
+            let mut b = sess.get(format!("https://{}:{}/", host, ports[1]));
+            if with_root { b = b.add_root_certificate(root(1).unwrap()); }
+            if let Some(o) = req_op { let (is_c, v) = ops[o]; if is_c { b = b.danger_accept_invalid_certs(v); certs = v; } else { b = b.danger_accept_invalid_hostnames(v); names = v; } }
+            let res = b.send(); cases += 1;
+            let expect = certs || (with_root && (host == "localhost" || names));
+            let show = |o: usize| format!("{}({})", if ops[o].0 { "accept_invalid_certs" } else { "accept_invalid_hostnames" }, ops[o].1);
+            let ctx = format!("session calls [{}], request call {:?}, host {}, root {}", seq.iter().map(|&o| show(o)).collect::<Vec<_>>().join(", "), req_op.map(show), host, if with_root { "added" } else { "not added" });
+            match res { Ok(_) => assert!(expect, "the exchange succeeded although the flags in effect do not allow it: {}", ctx), Err(e) => assert!(!expect, "the exchange failed although the flags in effect allow it: {} -> {}", ctx, e) }
+        } } }
+    }
     // both checks are on by default: a stand-alone request, a fresh session
     assert!(crate::get(format!("https://localhost:{}/", ports[1])).proxy_settings(crate::ProxySettings::builder().build()).send().is_err(), "an unknown self-signed certificate was accepted by default"); cases += 1;
     // a flag or an added root affects exactly the session or request it was set on
